@@ -3,7 +3,10 @@ package main
 // components "flow-C01".."flow-C16": a real Executor (executor.New(WithConfig)) over harness-owned source and nodes runs a
 // generated tree on a generated stream; the per-node observations are printed for the Lean Flow model and trace monitor.
 // input: "tree <seed> <nroots> N <kind> <workers> <buf> <discard> <disabled> <wP> <wT> <wF> <wE> <maxFan> <amode> <latUs> <nc> <hh> ... ;
-//         stream <n> ; opts stop=<k|-> gm=<GOMAXPROCS> [sig=1] [gate=<idx>]"
+//         stream <n> ; opts stop=<k|-> gm=<GOMAXPROCS> [sig=1] [gate=<idx>] [shutms=<idx>:<ms>]"
+// reinit=k: metrics.Init is called with another prefix (a second executor is built in the process) when k events have been emitted
+// srcfail=k: the source's Start returns an error after k events; the restarted source (10 s later) emits the rest
+// shutms=i:ms: node i's Shutdown takes ms before it flushes what it holds back and returns
 // stop=k: shutdown is requested when the source emits its k-th event — by Executor.Shutdown(), or with sig=1 by a SIGTERM
 // delivered to the process (the executor's signal handler)
 
@@ -118,12 +121,36 @@ func genFlow(prop string, r *rng, n int, tier string, emit func(string)) {
 		emit("tree 37 1 N async 1 2 0 0 100 0 0 0 1 1 0 2 0 N sync 1 1 0 0 100 0 0 0 1 0 300 0 0 N sync 1 1 0 0 100 0 0 0 1 0 0 0 0 ; stream 60 ; opts stop=- gm=4")
 		emit("tree 41 1 N async 1 1 0 0 100 0 0 0 1 1 0 3 0 N sync 1 1 0 0 100 0 0 0 1 0 300 0 0 N sync 2 1 0 0 100 0 0 0 1 0 0 0 0 N sync 1 2 0 0 100 0 0 0 1 0 20 0 0 ; stream 80 ; opts stop=- gm=16")
 	}
+	if prop == "C16" {
+		// a second pipeline with another metrics prefix is built while this one has events in flight (an async node holding them)
+		emit("tree 59 1 N async 2 2 0 0 60 0 20 20 1 2 0 1 1 N sync 1 1 0 0 100 0 0 0 1 0 100 0 0 N hsync 1 1 0 0 100 0 0 0 1 0 0 0 0 ; stream 30 ; opts stop=- gm=4 reinit=12")
+		emit("tree 61 1 N sync 2 2 0 0 60 0 20 20 1 0 200 1 0 N fanout 1 1 0 0 50 0 20 20 2 0 100 0 0 ; stream 40 ; opts stop=- gm=4 reinit=15")
+	}
 	if prop == "C04" || prop == "C16" {
 		emit("tree 17 1 N fanout 1 1 0 0 0 0 0 0 3 0 0 2 0 N sync 1 1 1 0 100 0 0 0 1 0 300 0 0 N sync 1 1 0 0 100 0 0 0 1 0 0 0 0 ; stream 30 ; opts stop=- gm=4")
 		emit("tree 19 1 N sync 2 1 0 0 20 0 0 80 1 0 0 0 1 N hsync 1 1 1 0 100 0 0 0 1 0 300 0 0 ; stream 40 ; opts stop=- gm=4")
 		emit("tree 23 1 N sync 4 2 0 0 100 0 0 0 1 0 0 2 0 N sync 1 1 1 0 100 0 0 0 1 0 0 0 0 N sync 1 2 0 0 100 0 0 0 1 0 0 0 0 ; stream 50 ; opts stop=- gm=4 gate=1")
 	}
+	if prop == "C01" {
+		// the source fails (Start returns an error) while events it has emitted are still on their way to a slow root; the
+		// supervisor restarts it 10 s later and the fresh source emits the rest: every event reaches the root
+		emit("tree 53 1 N sync 1 1 0 0 100 0 0 0 1 0 10000 1 0 N sync 1 1 0 0 100 0 0 0 1 0 0 0 0 ; stream 24 ; opts stop=- gm=4 srcfail=20")
+	}
+	if prop == "C03" {
+		// an async node that holds its events back and hands them on from a Shutdown taking 3.2 s of the 5 s timeout: its child
+		// and its handler must still be there
+		emit("tree 47 1 N async 1 2 0 0 70 0 0 30 1 2 0 1 1 N sync 1 1 0 0 100 0 0 0 1 0 0 0 0 N hsync 1 1 0 0 100 0 0 0 1 0 0 0 0 ; stream 6 ; opts stop=- gm=4 shutms=0:3200")
+	}
+	if prop == "C02" {
+		// failure storm: eight workers of one node fail events at the same time, every failure must be reported exactly once
+		emit("tree 43 1 N sync 8 4 0 0 0 0 0 100 1 0 0 0 1 N hsync 2 8 0 0 100 0 0 0 1 0 0 0 0 ; stream 3000 ; opts stop=- gm=16")
+	}
 	for i := 0; i < n; i++ {
+		if prop == "C02" && r.chance(6) {
+			emit(fmt.Sprintf("tree %d 1 N %s %d 4 0 0 %d 0 0 %d 2 %d 0 0 1 N %s %d %d 0 0 100 0 0 0 1 0 0 0 0 ; stream %d ; opts stop=- gm=16",
+				r.intn(100000), r.pickS("sync", "fanout", "async"), r.pick(4, 8, 16), 0, 100, r.intn(4), r.pickS("hsync", "hasync"), r.pick(1, 2, 4), r.pick(1, 8, 64), r.pick(500, 2000, 4000)))
+			continue
+		}
 		if prop == "C04" && r.chance(20) {
 			// race round: many fast parent workers deliver into a stalled discarding child with a tiny buffer
 			emit(fmt.Sprintf("tree %d 1 N %s %d 4 0 0 100 0 0 0 2 0 0 1 0 N sync 1 %d 1 0 100 0 0 0 1 0 0 0 0 ; stream %d ; opts stop=- gm=16 gate=1",
@@ -165,6 +192,9 @@ func genFlow(prop string, r *rng, n int, tier string, emit func(string)) {
 				gate = fmt.Sprintf(" gate=%d", cands[r.intn(len(cands))])
 				stop = "-"
 			}
+		}
+		if prop == "C16" && r.chance(15) && ns > 2 {
+			gate += fmt.Sprintf(" reinit=%d", r.intn(ns-1)+1)
 		}
 		emit(fmt.Sprintf("tree %d %d %s ; stream %d ; opts stop=%s gm=%d%s", r.intn(100000), nroots, strings.Join(g.parts, " "), ns, stop, r.pick(1, 2, 4, 16), gate))
 	}
@@ -261,6 +291,9 @@ func execFlow(input string) string {
 	gateIdx := -1
 	gateMs := 0
 	bySignal := false
+	shutIdx, shutMs := -1, 0
+	srcFail := -1
+	reinitAt := -1
 	for _, seg := range segs[1:] {
 		f := strings.Fields(seg)
 		if len(f) == 2 && f[0] == "stream" {
@@ -280,6 +313,19 @@ func execFlow(input string) string {
 				if o == "sig=1" {
 					bySignal = true
 				}
+				if strings.HasPrefix(o, "reinit=") {
+					reinitAt, _ = strconv.Atoi(strings.TrimPrefix(o, "reinit="))
+				}
+				if strings.HasPrefix(o, "srcfail=") {
+					srcFail, _ = strconv.Atoi(strings.TrimPrefix(o, "srcfail="))
+				}
+				if strings.HasPrefix(o, "shutms=") {
+					p := strings.SplitN(strings.TrimPrefix(o, "shutms="), ":", 2)
+					if len(p) == 2 {
+						shutIdx, _ = strconv.Atoi(p[0])
+						shutMs, _ = strconv.Atoi(p[1])
+					}
+				}
 				if strings.HasPrefix(o, "gatems=") {
 					gateMs, _ = strconv.Atoi(strings.TrimPrefix(o, "gatems="))
 				}
@@ -297,11 +343,24 @@ func execFlow(input string) string {
 	for i := 0; i < nstream; i++ {
 		src.events = append(src.events, fmt.Sprintf("e%d", i))
 	}
+	if srcFail >= 0 {
+		// the source's Start returns an error after srcFail events; the supervisor starts a fresh source 10 s later, which emits the rest
+		src.failAfter = []int{srcFail, -1}
+	}
+	if reinitAt >= 0 {
+		// while events are in flight the application builds a second pipeline with another metrics prefix (executor.WithConfig
+		// calls metrics.Init for every executor): the counters of the running one must not change under its feet
+		src.hookAt = reinitAt
+		src.hookFn = func() { metrics.Init(fmt.Sprintf("verif_second_%d", run)) }
+	}
 	currentSource = src
 	var gate chan struct{}
 	if gateIdx >= 0 && gateIdx < len(ft.specs) {
 		gate = make(chan struct{})
 		ft.specs[gateIdx].gate = gate
+	}
+	if shutIdx >= 0 && shutIdx < len(ft.specs) {
+		ft.specs[shutIdx].shutDelay = time.Duration(shutMs) * time.Millisecond
 	}
 	setScenario(ft.specs)
 	defer clearScenario(ft.specs)
@@ -345,7 +404,7 @@ func execFlow(input string) string {
 	}
 	select {
 	case <-done:
-	case <-time.After(12 * time.Second):
+	case <-time.After(time.Duration(12+map[bool]int{true: 11, false: 0}[srcFail >= 0]) * time.Second):
 		returned = false
 	}
 	ret := nextSeq()
